@@ -88,15 +88,22 @@ class Report:
         self.t0 = time.time()
 
     def key(self, rule, anchor, instance):
-        return f"{self.prop}|{rule}|{anchor}|{instance}"
+        return f"{self.prop}|{rule}|{anchor}|{instance}".replace(" ", "_")
+
+    def _add(self, o):
+        # one obligation per key: a key is violated if any of its instances is
+        for p in self.obligations:
+            if p["key"] == o["key"]:
+                if p["ok"] and not o["ok"]:
+                    p.update(o)
+                return
+        self.obligations.append(o)
 
     def ok(self, rule, anchor, instance, detail="", where=""):
-        self.obligations.append({"key": self.key(rule, anchor, instance), "rule": rule, "ok": True,
-                                 "detail": detail, "where": where})
+        self._add({"key": self.key(rule, anchor, instance), "rule": rule, "ok": True, "detail": detail, "where": where})
 
     def bad(self, rule, anchor, instance, detail, where=""):
-        self.obligations.append({"key": self.key(rule, anchor, instance), "rule": rule, "ok": False,
-                                 "detail": detail, "where": where})
+        self._add({"key": self.key(rule, anchor, instance), "rule": rule, "ok": False, "detail": detail, "where": where})
 
     def check(self, cond, rule, anchor, instance, detail="", where=""):
         if cond:
